@@ -149,3 +149,113 @@ Example two_requests :
                         (0%nat, RoundTrip 1); (0%nat, BalanceOk 0%nat); (0%nat, ForwardGoOn)] = Some s
             /\ counts s 0%nat = 2 /\ counts s 2%nat = 0 /\ inflight (reqs s) 2 0%nat = 2.
 Proof. eexists. split; [reflexivity|split; [reflexivity|split; reflexivity]]. Qed.
+
+(* ---- the operation traces the harness derives (ConnCount.simulate) are valid traces of the model, and end in the
+   state the harness assumes: finished, or in flight on the last chosen backend ---- *)
+Lemma run_ops_app s t1 t2 :
+  run_ops s (t1 ++ t2) = match run_ops s t1 with Some s1 => run_ops s1 t2 | None => None end.
+Proof.
+  revert s; induction t1 as [|[rid o] t1 IH]; intro s; [reflexivity|].
+  cbn [app run_ops]. destruct (step s rid o); [apply IH|reflexivity].
+Qed.
+
+Lemma step_balance_ok s slot b :
+  ph (reqs s slot) = PLoop ->
+  exists s1, step s slot (BalanceOk b) = Some s1 /\ reqs s1 slot = mkR PChosen (Some b) None.
+Proof. intro H. unfold step. rewrite H. eexists. split; [reflexivity|]. cbn [reqs]. apply upd_same. Qed.
+
+Lemma step_balance_err s slot :
+  ph (reqs s slot) = PLoop ->
+  exists s1, step s slot BalanceErr = Some s1 /\ ph (reqs s1 slot) = PDone.
+Proof. intro H. unfold step. rewrite H. eexists. split; [reflexivity|]. cbn [reqs]. rewrite upd_same. reflexivity. Qed.
+
+Lemma step_forward_finish s slot b :
+  reqs s slot = mkR PChosen (Some b) None ->
+  exists s1, step s slot ForwardFinish = Some s1 /\ ph (reqs s1 slot) = PDone.
+Proof. intro H. unfold step. rewrite H. cbn [ph]. eexists. split; [reflexivity|]. cbn [reqs]. rewrite upd_same. reflexivity. Qed.
+
+Lemma step_forward_goon s slot b :
+  reqs s slot = mkR PChosen (Some b) None ->
+  exists s1, step s slot ForwardGoOn = Some s1 /\ reqs s1 slot = mkR PSent (Some b) (Some b).
+Proof. intro H. unfold step. rewrite H. cbn [ph trans]. eexists. split; [reflexivity|]. cbn [reqs]. apply upd_same. Qed.
+
+Lemma step_round_trip s slot b x :
+  reqs s slot = mkR PSent (Some b) (Some b) ->
+  exists s1, step s slot (RoundTrip x) = Some s1 /\ reqs s1 slot = mkR (if x =? 1 then PLoop else PDone) (Some b) (Some b).
+Proof. intro H. unfold step. rewrite H. cbn [ph trans held]. eexists. split; [reflexivity|]. cbn [reqs]. apply upd_same. Qed.
+
+Lemma step_finish s slot :
+  ph (reqs s slot) = PDone ->
+  exists s1, step s slot Finish = Some s1 /\ ph (reqs s1 slot) = PFinished /\ held (reqs s1 slot) = None.
+Proof. intro H. unfold step. rewrite H. eexists. split; [reflexivity|]. cbn [reqs]. rewrite upd_same. split; reflexivity. Qed.
+
+Definition sim_end (m : sim) (choice : list nat) (r : rstate) : Prop :=
+  if m_held m then ph r = PSent /\ held r = Some (last choice 0%nat) /\ choice <> []
+  else ph r = PFinished /\ held r = None.
+
+Lemma simulate_valid fuel dead rm : forall retry fwd steps choice m s slot,
+  simulate fuel dead rm retry fwd steps choice = Some m ->
+  ph (reqs s slot) = PLoop ->
+  exists s', run_ops s (map (fun x => (slot, x)) (m_ops m)) = Some s' /\ sim_end m choice (reqs s' slot).
+Proof.
+  induction fuel as [|f IH]; intros retry fwd steps choice m s slot H P; [discriminate|].
+  cbn [simulate] in H.
+  destruct (rm <? retry).
+  { destruct choice; [|discriminate]. inversion H; subst m; clear H. cbn [m_ops map run_ops].
+    destruct (step_balance_err s slot P) as [s1 [E1 P1]]. rewrite E1.
+    destruct (step_finish s1 slot P1) as [s2 [E2 [P2 H2]]]. rewrite E2.
+    exists s2. split; [reflexivity|]. unfold sim_end. cbn. auto. }
+  destruct choice as [|b choice']; [discriminate|].
+  (* the three leading operations of an attempt that fails and is retried *)
+  assert (Retry : forall rest fwd' steps' m',
+            simulate f dead rm (retry + 1) fwd' steps' choice' = Some m' ->
+            m = mkSim ([BalanceOk b; ForwardGoOn; RoundTrip 1] ++ m_ops m') (m_status m') (S (m_used m')) (m_held m') ->
+            rest = tt ->
+            exists s', run_ops s (map (fun x => (slot, x)) (m_ops m)) = Some s' /\ sim_end m (b :: choice') (reqs s' slot)).
+  { intros _ fwd' steps' m' Hm' Em _. subst m. cbn [m_ops]. rewrite map_app, run_ops_app. cbn [map run_ops].
+    destruct (step_balance_ok s slot b P) as [s1 [E1 R1]]. rewrite E1.
+    destruct (step_forward_goon s1 slot b R1) as [s2 [E2 R2]]. rewrite E2.
+    destruct (step_round_trip s2 slot b 1 R2) as [s3 [E3 R3]]. rewrite E3. cbn [Z.eqb Pos.eqb] in R3.
+    assert (P3 : ph (reqs s3 slot) = PLoop) by (rewrite R3; reflexivity).
+    destruct (IH _ _ _ _ m' s3 slot Hm' P3) as [s' [Er En]]. exists s'. split; [exact Er|].
+    unfold sim_end in *. cbn [m_held]. destruct (m_held m').
+    - destruct En as [A [B C]]. split; [exact A|]. split; [|discriminate].
+      rewrite B. f_equal. destruct choice' as [|c0 cs]; [congruence|reflexivity].
+    - exact En. }
+  destruct (match fwd with v :: _ => v | [] => 1 end =? 0).
+  { inversion H; subst m; clear H Retry. cbn [m_ops map run_ops].
+    destruct (step_balance_ok s slot b P) as [s1 [E1 R1]]. rewrite E1.
+    destruct (step_forward_finish s1 slot b R1) as [s2 [E2 P2]]. rewrite E2.
+    destruct (step_finish s2 slot P2) as [s3 [E3 [P3 H3]]]. rewrite E3.
+    exists s3. split; [reflexivity|]. unfold sim_end. cbn. auto. }
+  destruct (Nat.eqb b dead).
+  { destruct (simulate f dead rm (retry + 1) (tl fwd) steps choice') as [m'|] eqn:Hm'; [|discriminate].
+    assert (Em : m = mkSim ([BalanceOk b; ForwardGoOn; RoundTrip 1] ++ m_ops m') (m_status m') (S (m_used m')) (m_held m'))
+      by (injection H as Em; symmetry; exact Em).
+    eapply (Retry tt); [exact Hm'|exact Em|reflexivity]. }
+  destruct ((match steps with x :: _ => x | [] => 0 end =? 1) || (match steps with x :: _ => x | [] => 0 end =? 2)).
+  { destruct (simulate f dead rm (retry + 1) (tl fwd) (tl steps) choice') as [m'|] eqn:Hm'; [|discriminate].
+    assert (Em : m = mkSim ([BalanceOk b; ForwardGoOn; RoundTrip 1] ++ m_ops m') (m_status m') (S (m_used m')) (m_held m'))
+      by (injection H as Em; symmetry; exact Em).
+    eapply (Retry tt); [exact Hm'|exact Em|reflexivity]. }
+  clear Retry.
+  destruct (match steps with x :: _ => x | [] => 0 end =? 3).
+  { destruct choice'; [|discriminate]. inversion H; subst m; clear H. cbn [m_ops map run_ops].
+    destruct (step_balance_ok s slot b P) as [s1 [E1 R1]]. rewrite E1.
+    destruct (step_forward_goon s1 slot b R1) as [s2 [E2 R2]]. rewrite E2.
+    exists s2. split; [reflexivity|]. unfold sim_end. cbn [m_held]. rewrite R2. cbn. repeat split; discriminate. }
+  destruct choice'; [|discriminate]. inversion H; subst m; clear H. cbn [m_ops map run_ops].
+  destruct (step_balance_ok s slot b P) as [s1 [E1 R1]]. rewrite E1.
+  destruct (step_forward_goon s1 slot b R1) as [s2 [E2 R2]]. rewrite E2.
+  destruct (step_round_trip s2 slot b 0 R2) as [s3 [E3 R3]]. rewrite E3. cbn [Z.eqb] in R3.
+  assert (P3 : ph (reqs s3 slot) = PDone) by (rewrite R3; reflexivity).
+  destruct (step_finish s3 slot P3) as [s4 [E4 [P4 H4]]]. rewrite E4.
+  exists s4. split; [reflexivity|]. unfold sim_end. cbn. auto.
+Qed.
+
+(* consequence for the harness: while a derived trace leaves a request held, it is in flight on the last chosen backend,
+   and the backend's count is the number of such requests (count_equals_inflight) *)
+Example simulate_example :
+  simulate 40 2 2 0 [1; 1] [1; 3] [0; 2; 1]%nat
+  = Some (mkSim [BalanceOk 0; ForwardGoOn; RoundTrip 1; BalanceOk 2; ForwardGoOn; RoundTrip 1; BalanceOk 1; ForwardGoOn] 0 3 true).
+Proof. reflexivity. Qed.
